@@ -1,18 +1,188 @@
-import RtenVerif.Model.Sym
+import RtenVerif.Lemmas.SymRange
 
 /-!
-# C11 — Symbolic expression simplification and bounds are sound (work in progress)
+# C11 — Symbolic expression simplification and bounds are sound
+
+Theorems over `RtenVerif.Model.Sym` (model of `rten-shape-inference/src/sym_expr.rs` *after*
+the fixes `9e4cee0` (nested Div/DivCeil constant merge uses `checked_mul`) and `f73ff8c`
+(`range` uses interval arithmetic)).
+
+Semantics.  `ev σ e` is evaluation over unbounded integers (`Arith.ideal`), `evc σ e` is
+overflow-checked `i32` evaluation (`Arith.checked`; any overflow is `error panic`), and the
+`wrap` arithmetic of release builds exists only for the correspondence check.  The value
+theorems are about `ev`; `c11_checked_eval_is_ideal` says that a checked evaluation that
+succeeds *is* the ideal one, so they apply to every run of the real `eval` in which no
+intermediate result leaves `i32`.  Constant folding inside `simplify` is covered for every
+`Exact` arithmetic (`ideal`, `checked`): whenever the simplifier does not panic, the folds
+were exact.
 -/
 namespace RtenVerif.Sym
 
+/-! ## T4 — canonicalize -/
+
+/-- **C11.T4** `canonicalize` (flattening, stable sort by `cmp_values_first`, cancellation
+of adjacent opposite / equal terms, `Sub → Add Neg`, folded `Neg` of constants) never changes
+a defined value — every expression, every assignment, no domain restriction. -/
+theorem c11_canonicalize_preserves_eval (σ : Env) (e : SymExpr) (v : Int)
+    (h : ev σ e = .ok v) : ev σ (canonicalize e) = .ok v :=
+  canonicalize_sound σ e v h
+
+/-! ## T1 — simplify -/
+
+/-- **C11.T1 (partial)** `simplify` preserves the value for every expression and assignment,
+provided the two arms that are not integer identities meet their side condition where they
+fire (`Guards`, evaluated on the canonicalised expression): `Broadcast` operands are `≥ 1` and
+equal-or-one; a `DivCeil` whose simplified dividend is a `DivCeil` has positive divisors.
+Every other arm (all of `Neg Add Sub Mul Div Max Min`, `remove_common_factors` incl. the gcd
+step, nested `Div` merging, `x.div_ceil(x)`, constant folds) is proved unconditionally.
+What is missing for the full statement is exactly the two findings below. -/
+theorem c11_simplify_preserves_eval_partial {A : Arith} (hA : Exact A) (σ : Env)
+    (e e' : SymExpr) (v : Int) (hs : simplify A e = some e')
+    (hg : Guards A σ (canonicalize e)) (h : ev σ e = .ok v) : ev σ e' = .ok v :=
+  simpC_sound hA σ (canonicalize e) e' v hg hs (canonicalize_sound σ e v h)
+
+/-- `simplify_canonical` alone (any input, canonical or not), same side conditions. -/
+theorem c11_simplify_canonical_preserves_eval_partial {A : Arith} (hA : Exact A) (σ : Env)
+    (e e' : SymExpr) (v : Int) (hs : simpC A e = some e') (hg : Guards A σ e)
+    (h : ev σ e = .ok v) : ev σ e' = .ok v :=
+  simpC_sound hA σ e e' v hg hs h
+
+/-- The ideal and the overflow-checked arithmetic are exact, so T1 applies to both. -/
+theorem c11_exact_arith : Exact Arith.ideal ∧ Exact Arith.checked := ⟨exact_ideal, exact_checked⟩
+
+/-- The documented domain as a decidable predicate: symbols flagged positive are `≥ 0`,
+`Broadcast` operands are `≥ 0` and equal or one of them is `1`. -/
+def docDom (σ : Env) : SymExpr → Bool
+  | .value _ => true
+  | .var n p =>
+    match σ n with
+    | some v => !p || decide (0 ≤ v)
+    | none => true
+  | .neg a => docDom σ a
+  | .bin o a b =>
+    docDom σ a && docDom σ b &&
+      (o != .broadcast ||
+        match ev σ a, ev σ b with
+        | .ok x, .ok y => decide (0 ≤ x) && decide (0 ≤ y) && (x == y || x == 1 || y == 1)
+        | _, _ => true)
+
+/-- The full statement of T1 as the property text has it. -/
+def SimplifySoundFull : Prop :=
+  ∀ (σ : Env) (e e' : SymExpr) (v : Int), simplify Arith.checked e = some e' →
+    docDom σ e = true → ev σ e = .ok v → ev σ e' = .ok v
+
 def envW : Env := fun n => if n = 3 then some 1 else none
+
+/-- `ceil_div(ceil_div(s3, -2), -2)` -/
 def wCeil : SymExpr := .bin .divCeil (.bin .divCeil (.var 3 false) (.value (-2))) (.value (-2))
 
-theorem c11_simplify_ceil_merge_witness :
-    simplify Arith.checked wCeil
-      = some (.bin .divCeil (.var 3 false) (.bin .mul (.value (-2)) (.value (-2)))) ∧
-    eval Arith.checked envW wCeil = .ok 0 ∧
-    eval Arith.checked envW (.bin .divCeil (.var 3 false) (.bin .mul (.value (-2)) (.value (-2)))) = .ok 1 := by
+/-- **Finding C11-divceil-merge-nonpositive.** The full statement is false: at `s3 = 1`
+`ceil_div(ceil_div(s3, -2), -2) = 0` but `simplify` returns `ceil_div(s3, -2 * -2)`, which
+is `1`.  Replayed on the real code by the harness (fixed case + random). -/
+theorem c11_simplify_preserves_eval_false_divceil : ¬ SimplifySoundFull := by
+  intro h
+  have := h envW wCeil (.bin .divCeil (.var 3 false) (.bin .mul (.value (-2)) (.value (-2)))) 0
+    (by decide) (by decide) (by decide)
+  revert this
   decide
+
+def envB : Env := fun n => if n = 4 then some 1 else none
+
+/-- **Finding C11-broadcast-zero-one.** `broadcast(0, s4)` simplifies to `0`, but evaluates
+(as `max`) to `1` at `s4 = 1`, an assignment inside the documented domain. -/
+theorem c11_simplify_preserves_eval_false_broadcast : ¬ SimplifySoundFull := by
+  intro h
+  have := h envB (.bin .broadcast (.value 0) (.var 4 false)) (.value 0) 1
+    (by decide) (by decide) (by decide)
+  revert this
+  decide
+
+/-- `Guards` and `Dom` have decidable sufficient forms (`guardsB`, `domB`), so the
+hypotheses of T1–T3 can be computed for a concrete expression and assignment. -/
+theorem c11_guards_decidable (A : Arith) (σ : Env) (e : SymExpr) :
+    (guardsB A σ e = true → Guards A σ e) ∧ (domB σ e = true → Dom σ e) :=
+  ⟨guardsB_sound A σ e, domB_sound σ e⟩
+
+def exσ1 : Env := fun n => if n = 0 then some 4 else if n = 1 then some 5 else if n = 2 then some 7 else none
+def exE1 : SymExpr := .bin .add (.bin .sub (.bin .add (.var 0 true) (.var 1 true)) (.var 0 true))
+  (.bin .divCeil (.bin .divCeil (.var 2 true) (.value 2)) (.value 3))
+
+/-- Non-vacuity of T1: `(s0 + s1) - s0 + ceil_div(ceil_div(s2, 2), 3)` simplifies to
+`s1 + ceil_div(s2, 6)`, the guards hold, and the value `5 + 2 = 7` is preserved. -/
+example :
+    simplify Arith.checked exE1
+        = some (.bin .add (.var 1 true) (.bin .divCeil (.var 2 true) (.value 6))) ∧
+      ev exσ1 exE1 = .ok 7 ∧ Guards Arith.checked exσ1 (canonicalize exE1) :=
+  ⟨by decide +kernel, by decide +kernel,
+    guardsB_sound Arith.checked exσ1 (canonicalize exE1) (by decide +kernel)⟩
+
+/-! ## T2 — range -/
+
+/-- **C11.T2** (code after fix `f73ff8c`).  For every expression and every assignment in the
+domain (`Dom`: constants and symbol values are `i32`, positive symbols `≥ 0`, `Broadcast`
+operands `≥ 0`): if evaluation succeeds with `v` without leaving `i32`, then
+`range e = (lo, hi)` satisfies `lo ≤ v ≤ hi`. -/
+theorem c11_range_sound (σ : Env) (e : SymExpr) (v : Int) (hd : Dom σ e)
+    (h : evc σ e = .ok v) : (range e).1 ≤ v ∧ v ≤ (range e).2 :=
+  (range_sound σ e v hd h).2.2
+
+/-- Bridge between the machine and the ideal semantics: a successful overflow-checked
+evaluation is the ideal evaluation (and its value is an `i32`). -/
+theorem c11_checked_eval_is_ideal (σ : Env) (e : SymExpr) (v : Int) (hd : Dom σ e)
+    (h : evc σ e = .ok v) : ev σ e = .ok v ∧ I32MIN ≤ v ∧ v ≤ I32MAX :=
+  ⟨(range_sound σ e v hd h).1, (range_sound σ e v hd h).2.1⟩
+
+def exσ2 : Env := fun n => if n = 0 then some 5 else if n = 3 then some (-2) else none
+def exE2 : SymExpr :=
+  .bin .add (.bin .div (.neg (.bin .mul (.var 0 true) (.value 3))) (.var 3 false)) (.value 1)
+
+/-- Non-vacuity of T2: `-(s0 * 3) / s3 + 1` at `s0 = 5, s3 = -2`. -/
+example : evc exσ2 exE2 = .ok 8 ∧ range exE2 = (-2147483646, 2147483647) ∧ Dom exσ2 exE2 :=
+  ⟨by decide +kernel, by decide +kernel, domB_sound exσ2 exE2 (by decide +kernel)⟩
+
+/-- The overflow guard in T2 is necessary and is not a defect: `s0 + s0` has range
+`(0, i32::MAX)`, which ideal arithmetic leaves at `s0 = i32::MAX`. -/
+example :
+    let σ : Env := fun n => if n = 0 then some 2147483647 else none
+    let e : SymExpr := .bin .add (.var 0 true) (.var 0 true)
+    ev σ e = .ok 4294967294 ∧ range e = (0, 2147483647) ∧ evc σ e = .error .panic := by
+  decide
+
+/-! ## T3 — is_positive -/
+
+/-- **C11.T3** `is_positive e` implies `0 ≤ v` for every assignment in the domain and every
+defined (ideal) value. -/
+theorem c11_is_positive_sound (σ : Env) (e : SymExpr) (v : Int) (hd : Dom σ e)
+    (hp : isPositive e = true) (h : ev σ e = .ok v) : 0 ≤ v :=
+  isPositive_sound σ e v hd hp h
+
+def exσ3 : Env := fun n => if n = 0 then some 5 else none
+def exE3 : SymExpr := .bin .max (.var 0 true) (.value (-3))
+
+/-- Non-vacuity of T3. -/
+example : isPositive exE3 = true ∧ ev exσ3 exE3 = .ok 5 ∧ Dom exσ3 exE3 :=
+  ⟨by decide +kernel, by decide +kernel, domB_sound exσ3 exE3 (by decide +kernel)⟩
+
+/-- `Broadcast(..)` is unconditionally "positive": outside the constructor's domain the
+claim fails (`broadcast(-5, -3)` is `-3`), which is why `Dom` constrains its operands. -/
+example : isPositive (.bin .broadcast (.value (-5)) (.value (-3))) = true ∧
+    ev (fun _ => none) (.bin .broadcast (.value (-5)) (.value (-3))) = .ok (-3) := by decide
+
+/-! ## PartialEq, gcd, div_ceil -/
+
+/-- `PartialEq` (equality modulo commutativity, symbols by name) is sound for evaluation. -/
+theorem c11_partial_eq_sound (σ : Env) (a b : SymExpr) (v : Int) (h : beq a b = true)
+    (ha : ev σ a = .ok v) : ev σ b = .ok v := beq_sound σ a b v h ha
+
+/-- `remove_common_factors` preserves the truncated quotient. -/
+theorem c11_remove_common_factors_sound (σ : Env) (l r : SymExpr) (v : Int)
+    (h : ev σ (.bin .div l r) = .ok v) : ev σ (.bin .div (rcf l r).1 (rcf l r).2) = .ok v :=
+  rcf_sound h
+
+/-- The code's `div_ceil` is the mathematical ceiling for positive divisors, and negating
+both operands does not change it. -/
+theorem c11_div_ceil_spec (x y : Int) :
+    (0 < y → divCeilI x y = -((-x) / y)) ∧ (y < 0 → divCeilI x y = divCeilI (-x) (-y)) :=
+  ⟨fun h => divCeilI_pos h, fun h => divCeilI_neg_neg h⟩
 
 end RtenVerif.Sym
